@@ -390,12 +390,22 @@ func validUTF8(s string) bool {
 
 func checkC01(t *testing.T, sc *Scenario) *Verdict {
 	v := &Verdict{OK: true}
+	newRaceReports() // race-detector build only: discard anything left over
 	res := Run(t, sc, sc.Sched, Hooks{MaxSteps: 600000})
 	v.absorb(res)
 	replayForm := func() *Scenario {
 		c := sc.Clone()
 		c.Sched = withTape(sc.Sched, res.Tape)
 		return c
+	}
+	// In the race-detector build (a share of C01's workers): two of the server's goroutines touching
+	// one Go map without synchronisation, one of them writing.  The simulator runs one goroutine at
+	// a time, so the runtime's own check cannot fire here; on real cores this is
+	// "fatal error: concurrent map read and map write", which no recover() catches.
+	for _, r := range newRaceReports() {
+		if r.mapConflict {
+			return v.violation("concurrent-map-access", "map: "+r.a+" <-> "+r.b, r.text, replayForm())
+		}
 	}
 	switch res.Outcome {
 	case OutOK:
